@@ -8,6 +8,7 @@ pub mod store;
 pub mod data;
 pub mod serial;
 pub mod validation;
+pub mod transpose;
 
 pub fn run(family: &str, opts: &Opts) -> Option<Report> {
     // "family@m<interval>s<0|1>" runs the family under a store configuration variant
@@ -38,6 +39,7 @@ fn run_base(family: &str, opts: &Opts) -> Option<Report> {
         "data" => Some(data::run(opts)),
         "serial" => Some(serial::run(opts)),
         "validation" => Some(validation::run(opts)),
+        "transpose" => Some(transpose::run(opts)),
         _ => None,
     }
 }
